@@ -88,6 +88,8 @@ def build_loss(rec):
     def resid(inputs, uval, p):
         th = [jnp.squeeze(p.eq_params[k]) for k in pkeys]
         z = [inputs[i] for i in range(nin)] + [uval[i] for i in range(len(rec["V"]))] + th
+        if rec.get("rshape") == "scalar":
+            return polyeval(R[0], z)              # a single residual returned as a 0-d scalar
         return jnp.stack([polyeval(r, z) for r in R])
 
     het = None
